@@ -128,9 +128,16 @@ def run(rep, tier, rng):
         for _ in range(3 + rr.below(8)):
             if keys and rr.chance(1, 2):
                 k = rr.choice(keys)
-            elif keys and rr.chance(1, 6):
-                # another key in the same leaf (same most significant element)
-                k = [rr.below(P), rr.below(P), rr.below(P), rr.choice(keys)[3]]
+            elif keys and rr.chance(1, 4):
+                # another key in the same leaf (same most significant element): unrelated, or equal to a
+                # present key except for exactly one of the other elements
+                k0 = rr.choice(keys)
+                if rr.chance(1, 3):
+                    k = [rr.below(P), rr.below(P), rr.below(P), k0[3]]
+                else:
+                    k = list(k0)
+                    j = rr.below(3)
+                    k[j] = (k[j] + rr.choice([1, P - 1, 2**32])) % P
             else:
                 k = [rr.choice([0, 1, P - 1, rr.below(P)]) for _ in range(3)] + [rr.choice([0, 1, 2**63, 2**32 - 1, P - 1, rr.below(P), rr.below(P)])]
             if k not in keys:
@@ -141,6 +148,17 @@ def run(rep, tier, rng):
             else:
                 ops.append("g " + " ".join(map(str, k)))
         cases.append(" ; ".join(ops))
+    # a present key and the absent keys that differ from it in exactly one of the elements 0..2 (same leaf)
+    for i in range(4 if tier == "quick" else 60):
+        rr = r.fork("sk%d" % i)
+        k0 = [rr.choice([0, 1, P - 1, rr.below(P)]) for _ in range(4)]
+        v0 = [1 + rr.below(P - 1) for _ in range(4)]
+        for j in range(3):
+            for dlt in (1, P - 1, 2**32):
+                k1 = list(k0)
+                k1[j] = (k1[j] + dlt) % P
+                cases.append(" ; ".join(["s " + " ".join(map(str, k0 + v0)), "g " + " ".join(map(str, k1)), "g " + " ".join(map(str, k0)),
+                                         "s " + " ".join(map(str, k1 + [0, 0, 0, 0])), "g " + " ".join(map(str, k0))]))
     for c, x in zip(cases, common.run_impl("smt", cases, tag="c18s")):
         toks = x.split()
         if x.startswith("PANIC") or len(toks) != len(c.split(";")):
